@@ -46,7 +46,7 @@ def graph_lexicon(g) -> dict:
     # words: {'form': [[synset index, pos-of-entry], ...]}
     entries = []
     k = 0
-    for form, senses in sorted(g.get('words', {}).items()):
+    for form, senses in g.get('words', []):
         bypos = {}
         for sx in senses:
             bypos.setdefault(g['pos'][sx - 1], []).append(sx)
@@ -75,8 +75,8 @@ def rat(x: float, tol=1e-9):
         return 'inf'
     if math.isnan(x):
         return 'nan'
-    f = Fraction(x).limit_denominator(1_000_000)
-    if abs(float(f) - x) > tol * max(1.0, abs(x)) or abs(f.numerator) >= 2**30:
+    f = Fraction(x).limit_denominator(10_000)
+    if abs(float(f) - x) > tol * max(1.0, abs(x)) or abs(f.numerator) > 30_000:
         return 'inexact:' + repr(x)
     return [f.numerator, f.denominator]
 
@@ -126,87 +126,87 @@ def battery13(g, w, ss):
     return o
 
 
-def inv_log(v):
-    """v = -log(q)  ->  q as a rational"""
-    if isinstance(v, str):
-        return v
-    return rat(math.exp(-v))
+def val(st_v, conv=None):
+    """(status, float) -> [status, num, den]; special values become statuses"""
+    st, v = st_v
+    if st != 'ok':
+        return [st, 0, 1]
+    if conv:
+        try:
+            v = conv(v)
+        except (OverflowError, ZeroDivisionError, ValueError):
+            return ['inexact', 0, 1]
+    r = rat(v)
+    if isinstance(r, str):
+        return [r.split(':')[0], 0, 1]
+    return ['ok', r[0], r[1]]
 
 
 def battery14(g, w, ss):
     n = g['n']
-    o = {'sim': []}
+    o = {'sim': [], 'lch': []}
     mds = g.get('lch_depths', [1, 3])
     for sim in (False, True):
         for a in range(1, n + 1):
             for b in range(1, n + 1):
-                p = call(wn.similarity.path, ss[a], ss[b], simulate_root=sim)
-                wu = call(wn.similarity.wup, ss[a], ss[b], simulate_root=sim)
-                lc = [[md, inv_log(call(wn.similarity.lch, ss[a], ss[b], md,
-                                        simulate_root=sim))] for md in mds]
-                o['sim'].append([a, b, sim,
-                                 rat(p) if not isinstance(p, str) else p,
-                                 rat(wu) if not isinstance(wu, str) else wu, lc])
-    # information-content based metrics with given weights
+                p = val(call(wn.similarity.path, ss[a], ss[b], simulate_root=sim))
+                wu = val(call(wn.similarity.wup, ss[a], ss[b], simulate_root=sim))
+                o['sim'].append([a, b, sim] + p + wu)
+                for md in mds:
+                    # lch = -log q  ->  q
+                    o['lch'].append([a, b, sim, md] + val(
+                        call(wn.similarity.lch, ss[a], ss[b], md, simulate_root=sim),
+                        lambda v: math.exp(-v)))
     o['ic'] = []
     for wi, weights in enumerate(g.get('weights', [])):
-        # weights: list of positive ints per synset (index x-1), total per pos
+        # weights: positive ints per synset (index x-1) and a total per pos
         freq = {p: {} for p in ('n', 'v', 'a', 'r')}
+        # every synset gets its weight in every table: hypernyms of another
+        # part of speech are outside the property, but must not crash the run
         for x in range(1, n + 1):
-            p = g['pos'][x - 1]
-            p = 'a' if p == 's' else p
-            freq.setdefault(p, {})[ss[x].id] = float(weights['w'][x - 1])
+            for p in freq:
+                freq[p][ss[x].id] = float(weights['w'][x - 1])
         for p in freq:
             freq[p][None] = float(weights['total'])
-        # wn.ic looks weights up under synset.pos, so mirror 'a' under 's'
-        freq['s'] = freq['a']
-        rows = []
         for a in range(1, n + 1):
             for b in range(1, n + 1):
-                r = call(wn.similarity.res, ss[a], ss[b], freq)
-                j = call(wn.similarity.jcn, ss[a], ss[b], freq)
-                li = call(wn.similarity.lin, ss[a], ss[b], freq)
-                # res = -log p0 ; jcn = 1/log(p0^2/(p1 p2)) ; lin = 2 log p0/(log p1+log p2)
-                if not isinstance(j, str) and j not in (0, 0.0) and not math.isinf(j):
-                    jr = rat(math.exp(1.0 / j))
-                elif isinstance(j, str):
-                    jr = j
+                # res = -log p0 -> p0 ; jcn = 1/log(p0^2/(p1 p2)) -> p0^2/(p1 p2)
+                r = val(call(wn.similarity.res, ss[a], ss[b], freq),
+                        lambda v: math.exp(-v))
+                jst, jv = call(wn.similarity.jcn, ss[a], ss[b], freq)
+                if jst == 'ok' and jv == 0:
+                    j = ['zero', 0, 1]
+                elif jst == 'ok' and math.isinf(jv):
+                    j = ['inf', 0, 1]
                 else:
-                    jr = 'zero' if j == 0 else 'inf'
-                rows.append([a, b, inv_log(r), jr,
-                             rat(li) if not isinstance(li, str) else li])
-        o['ic'].append({'wi': wi, 'rows': rows})
+                    j = val((jst, jv), lambda v: math.exp(1.0 / v))
+                li = val(call(wn.similarity.lin, ss[a], ss[b], freq))
+                o['ic'].append([wi, a, b] + r + j + li)
     return o
 
 
 def battery15(g, w, ss):
     n = g['n']
-    o = {'compute': []}
+    o = {'freq': [], 'tot': [], 'prob': [], 'meta': []}
     for ci, c in enumerate(g.get('corpora', [])):
         sm = Fraction(c['smoothing'][0], c['smoothing'][1])
-        res = call(wn.ic.compute, c['tokens'], w, distribute_weight=c['distribute'],
-                   smoothing=float(sm))
-        if isinstance(res, str):
-            o['compute'].append({'ci': ci, 'err': res})
+        st, res = call(wn.ic.compute, c['tokens'], w, distribute_weight=c['distribute'],
+                       smoothing=float(sm))
+        o['meta'].append([ci, st, sorted(k for k in res) if st == 'ok' else []])
+        if st != 'ok':
             continue
-        byp = []
         for pos in sorted(res):
             m = res[pos]
-            row = {'pos': pos, 'total': rat(m[None]), 'w': []}
+            o['tot'].append([ci, pos] + val(('ok', m[None])))
             for k, v in m.items():
                 if k is not None:
-                    row['w'].append([int(k.rsplit('-s', 1)[1]), rat(v)])
-            row['w'].sort()
-            byp.append(row)
-        probs = []
+                    o['freq'].append([ci, pos, int(k.rsplit('-s', 1)[1])] + val(('ok', v)))
         if sm > 0:
             for x in range(1, n + 1):
-                pr = call(wn.ic.synset_probability, ss[x], res)
-                ic = call(wn.ic.information_content, ss[x], res)
-                probs.append([x, rat(pr) if not isinstance(pr, str) else pr,
-                              inv_log(ic)])
-        o['compute'].append({'ci': ci, 'freq': byp, 'probs': probs,
-                             'keys': [k for k in res]})
+                o['prob'].append([ci, x]
+                                 + val(call(wn.ic.synset_probability, ss[x], res))
+                                 + val(call(wn.ic.information_content, ss[x], res),
+                                       lambda v: math.exp(-v)))
     return o
 
 
